@@ -345,7 +345,13 @@ def rule_file(ctx):
             is_presence = isinstance(t, ast.Compare) and last_attr(t.left) == "close" and isinstance(t.ops[0], (ast.IsNot, ast.Is))
             if not is_presence:
                 ok = False
-    ctx.ob("C12.FILE", ae, "__aexit__ awaits close() guarded only by 'close was bound'", ok,
+    for a in awaits_close:
+        q = p.parent.get(a)
+        while q is not None and q is not ae:
+            if isinstance(q, ast.Try) and q.handlers:
+                ok = False   # a close() failure would be swallowed or filtered
+            q = p.parent.get(q)
+    ctx.ob("C12.FILE", ae, "__aexit__ awaits close() guarded only by 'close was bound', outside any try/except (a close failure propagates)", ok,
            "AsyncPathIOContext.__aexit__ does not close the file on every exit (close missing or conditional on the exception)", construct="__aexit__:close")
     # in __aenter__: close bound after the open without a suspension point in between, and bound to the backend's close of that file
     stmts = aen.body
